@@ -435,6 +435,7 @@ class Run:
                 info = AsyncServiceInfo(OWNERS[T][0], OWNERS[[I, J][op[1] % 2]][0])
                 lookups.append(asyncio.ensure_future(info.async_request(zc, op[2])))
                 await asyncio.sleep(0)
+                process_purges()      # (yielding to the loop lets a purge that is due at this very instant run: the model follows)
                 run.stats['lookup_pending'] = run.stats.get('lookup_pending', 0) + 1
             # the engine purges every 10 s: nothing may linger more than one purge period past its expiry
             now_q = w.now_ms
